@@ -26,12 +26,28 @@ def _wide():
 
 
 def execute(case, t):
-    tr = ce.traced_run(case, t, sync_pool=True, record_admm=False)
+    tr = ce.traced_run(case, t, sync_pool=True, record_admm=True)
     m = tr.end["model"]
     labels = m["labels"]
     K = case["K"]
     thetas = [np.atleast_2d(c["train_inverse"]) for c in m["clusters"]]
     covs = [np.atleast_2d(c["empirical_covariance"]) for c in m["clusters"]]
+    # "S_k, the empirical covariance cluster k was fitted to": the matrix the optimiser was actually given when it produced
+    # Theta_k (the latest optimiser call whose answer, floor applied, is the stored Theta_k) - normally the state's own record
+    from fast_ticc import matrix_compression
+    eps = float(case.get("eps") or 0)
+    calls = [c for q in reversed(tr.rounds) for c in reversed(q["admm"]) if "theta" in c]
+    for k in range(len(thetas)):
+        for c in calls:
+            th = matrix_compression.reinflate_matrix(np.array(c["theta"], copy=True))
+            if eps:
+                th = np.where(np.abs(th) >= eps, th, 0.0)
+            if th.shape == thetas[k].shape and np.array_equal(th, thetas[k]):
+                S_fit = np.atleast_2d(c["S"])
+                if S_fit.shape == covs[k].shape and not np.array_equal(S_fit, covs[k], equal_nan=True):
+                    t.cls("fitted_covariance_differs_from_the_states_record")
+                covs[k] = S_fit
+                break
     bic = tr.result.bayesian_information_criterion
     try:
         bic_f = float(bic)
